@@ -580,6 +580,7 @@ func batcherGen(r *Rng, tier string) Case {
 		}
 		return ""
 	}
+	heavy := kinesis && r.Chance(35) // byte-limit mode: batches fill up by bytes, not by count
 	id := 0
 	lsn := 1000
 	key := 0
@@ -615,6 +616,10 @@ func batcherGen(r *Rng, tier string) Case {
 				if kinesis && huge < 12 && r.Chance(12) {
 					huge++
 					size = Pick(r, []int{1<<20 - 1, 1 << 20, 1<<20 + 1, 600 << 10, 1<<20 - 30})
+				} else if heavy && huge < 60 && r.Chance(70) {
+					huge++
+					// five records of (1 MiB - k) + key length k add up to exactly the 5 MiB batch limit
+					size = 1<<20 - Pick(r, []int{0, 1, 3, 4, 5, 6, 7, 8, 9, 10, 11, 1 << 19})
 				}
 				lines = append(lines, fmt.Sprintf("batcher msg DATA %s %d %d %d %d %d 0", hexs(pkeyFor(txn, Pick(r, tables))), txn, key, size, lsn, id))
 				tick()
@@ -636,11 +641,76 @@ func quickHashGo(s string, n int) int {
 	return int(crc32ieee([]byte(s))) % n
 }
 
+// batcherMonitor evaluates Spec.Batcher (Lean) on the implementation's events.
+func batcherMonitor(lines, outs []string, m *Model) []Violation {
+	lastOpen := ""
+	sawCfg := false
+	for i, l := range lines {
+		if i >= len(outs) {
+			break
+		}
+		w := strings.Fields(l)
+		if len(w) < 2 {
+			continue
+		}
+		switch w[1] {
+		case "cfg":
+			if sawCfg {
+				return nil
+			}
+			sawCfg = true
+			m.Do("batchermon " + strings.Join(w[1:], " "))
+		case "msg":
+			m.Do("batchermon " + strings.Join(w[1:], " "))
+			m.Do("batchermon evs " + outs[i])
+		case "tick":
+			m.Do("batchermon evs " + outs[i])
+		case "open":
+			lastOpen = outs[i]
+		}
+	}
+	if !sawCfg || len(lines) < 2 || !strings.HasPrefix(lines[len(lines)-1], "batcher open") || len(outs) != len(lines) {
+		return nil // the statements are about a completed history that ends with the open set
+	}
+	m.Do("batchermon open " + lastOpen)
+	v, _ := m.Do("batchermon verdict")
+	kv := map[string]bool{}
+	for _, f := range strings.Fields(v) {
+		p := strings.SplitN(f, "=", 2)
+		if len(p) == 2 {
+			kv[p[0]] = p[1] == "true"
+		}
+	}
+	if v == "bad-op" || kv["fatal"] {
+		return nil
+	}
+	var vs []Violation
+	if !kv["once"] {
+		vs = append(vs, Violation{"C04", "per partition key, dispatched ++ open records differ from the accepted input records (lost, duplicated or reordered) (" + v + ")", ""})
+		vs = append(vs, Violation{"C05", "record order per partition key is not the delivery order (" + v + ")", ""})
+	}
+	if !kv["txns"] {
+		vs = append(vs, Violation{"C04", "per-transaction counts reported by batches do not add up to the records plus counted drops (" + v + ")", ""})
+		vs = append(vs, Violation{"C02", "batch transaction counts do not match what the batcher announces as the transaction total (ledger would wedge) (" + v + ")", ""})
+	}
+	if !kv["routing"] {
+		vs = append(vs, Violation{"C05", "batch routed to a worker other than the one the routing method dictates (" + v + ")", ""})
+	}
+	if !kv["single"] || !kv["kkeys"] {
+		vs = append(vs, Violation{"C06", "batch mixes partition keys or a Kinesis record carries the wrong partition key (" + v + ")", ""})
+	}
+	if !kv["limits"] || !kv["dropstats"] {
+		vs = append(vs, Violation{"C15", "a dispatched batch exceeds a sink limit, or a per-record-limit drop has no statistic (" + v + ")", ""})
+	}
+	return vs
+}
+
 func init() {
 	register(&Component{
 		Name:     "batcher",
 		Gen:      batcherGen,
 		Run:      batcherRun,
+		Monitor:  batcherMonitor,
 		Quick:    400,
 		Thorough: 8000,
 		Nontrivial: func(lines, outs []string) bool {
